@@ -118,6 +118,15 @@ func init() {
 			vn = fmt.Sprintf("%s#%d", name, k)
 		}
 		v := ex.namedInput(vn, 64)
+		if fv, ok := ex.cfg.Fix[vn]; ok {
+			if _, done := st.concr[v.id]; !done {
+				if fv >= n.c {
+					panic(endPath{"fixed Choose value out of range"})
+				}
+				st.assume(ex.tb.Eq(v, ex.c64(fv)))
+				st.concr[v.id] = fv
+			}
+		}
 		if _, done := st.concr[v.id]; !done {
 			st.assume(ex.tb.Ult(v, n))
 		}
@@ -187,6 +196,12 @@ func init() {
 			panic("verifrt.Initial: not a Bytes input")
 		}
 		return ret(f, retTo, ex.tb.Select(o.Init, ex.tb.Add(s.Off, args[1].(*Term))))
+	}
+	intrinsics[verifrtPath+"Or"] = func(ex *Exec, st *State, f *Frame, fn FuncV, args []Value, retTo ssa.Value, instr ssa.Instruction) bool {
+		return ret(f, retTo, ex.tb.Or(args[0].(*Term), args[1].(*Term)))
+	}
+	intrinsics[verifrtPath+"And"] = func(ex *Exec, st *State, f *Frame, fn FuncV, args []Value, retTo ssa.Value, instr ssa.Instruction) bool {
+		return ret(f, retTo, ex.tb.And(args[0].(*Term), args[1].(*Term)))
 	}
 	intrinsics[verifrtPath+"Symbolic"] = func(ex *Exec, st *State, f *Frame, fn FuncV, args []Value, retTo ssa.Value, instr ssa.Instruction) bool {
 		return ret(f, retTo, ex.tb.True())
@@ -377,6 +392,13 @@ func init() {
 		return ret(f, retTo, Opaque{Why: "reflect.TypeOf"})
 	}
 	intrinsics["internal/reflectlite.TypeOf"] = intrinsics["reflect.TypeOf"]
+
+	intrinsics["internal/abi.NoEscape"] = func(ex *Exec, st *State, f *Frame, fn FuncV, args []Value, retTo ssa.Value, instr ssa.Instruction) bool {
+		return ret(f, retTo, args[0])
+	}
+	intrinsics["(*strings.Builder).copyCheck"] = func(ex *Exec, st *State, f *Frame, fn FuncV, args []Value, retTo ssa.Value, instr ssa.Instruction) bool {
+		return ret(f, retTo, nil)
+	}
 
 	// ---- fmt / errors
 	intrinsics["fmt.Errorf"] = intrErrorf
